@@ -321,6 +321,14 @@ def doAssign (st : TState) (la : Name × Expr) : E TState :=
     pure { c := r.1.c.relabel [(r.2, la.1)], gateExprs := r.1.gateExprs.filter (· != r.2) }   -- discard (K7 fix)
   else addNode r.1 la.1 "buf" [r.2] false >>= fun r2 => pure r2.1
 
+/-- a gate's fan-in is a set: in a parity gate an operand given an even number of times cancels (fix K30); if nothing
+    is left the gate reads the constant 0 -/
+def parityFanin (ty : String) (fi : List Name) : List Name :=
+  if (ty == "xor" || ty == "xnor") && (dedup fi).length < fi.length then
+    let r := (dedup fi).filter (fun p => fi.count p % 2 == 1)
+    if r.isEmpty then ["tie_0"] else r
+  else fi
+
 def doInstance (bbs : List BBox) (ord : Ord) (modName : Name) (st : TState) (inst : Name × Conns) : E TState :=
   if T.primitive.contains modName then
     match inst.2 with
@@ -331,7 +339,7 @@ def doInstance (bbs : List BBox) (ord : Ord) (modName : Name) (st : TState) (ins
       evalExprs st es >>= fun r =>
       match r.2 with
       | [] => .error .indexError
-      | o :: fi => addNode r.1 o modName fi false >>= fun r2 => pure r2.1
+      | o :: fi => addNode r.1 o modName (parityFanin modName fi) false >>= fun r2 => pure r2.1
   else
     -- connection expressions are evaluated before the instantiation callback looks the blackbox up
     (match inst.2 with
